@@ -39,11 +39,79 @@ class BuildError(Exception):
 
 
 # --------------------------------------------------------------------------- extern blocks
-_FIELD = re.compile(r'(bint|unsigned int|unsigned|float|double|size_t|long|int|string|cell_item \*)\s*(\*?\w+)$')
+_FIELD = re.compile(r'(bint|bool|unsigned int|unsigned|float|double|size_t|long|int|string|cell_item \*)\s*(\*?\w+)$')
+
+
+def strip_comments(src):
+    """remove # comments (outside string literals, triple-quoted ones included) so that no later step has to know
+    where a comment may stand"""
+    out = []
+    triple = None
+    for ln in src.split('\n'):
+        res = []
+        i = 0
+        quote = None
+        while i < len(ln):
+            ch = ln[i]
+            if triple:
+                if ln.startswith(triple, i):
+                    res.append(triple)
+                    i += 3
+                    triple = None
+                    continue
+                res.append(ch)
+                i += 1
+                continue
+            if quote:
+                res.append(ch)
+                if ch == '\\' and i + 1 < len(ln):
+                    res.append(ln[i + 1])
+                    i += 2
+                    continue
+                if ch == quote:
+                    quote = None
+                i += 1
+                continue
+            if ln.startswith('"""', i) or ln.startswith("'''", i):
+                triple = ln[i:i + 3]
+                res.append(triple)
+                i += 3
+                continue
+            if ch in '\'"':
+                quote = ch
+                res.append(ch)
+                i += 1
+                continue
+            if ch == '#':
+                break
+            res.append(ch)
+            i += 1
+        out.append(''.join(res).rstrip() if not triple else ''.join(res))
+    return '\n'.join(out)
+
+
+def _join_open_brackets(lines):
+    """a declaration wrapped over several lines inside ( ) or [ ] is one declaration"""
+    out = []
+    buf = ''
+    depth = 0
+    for ln in lines:
+        if depth > 0:
+            buf += ' ' + ln.strip()
+        else:
+            buf = ln
+        depth = buf.count('(') + buf.count('[') - buf.count(')') - buf.count(']')
+        if depth <= 0:
+            out.append(buf)
+            buf = ''
+            depth = 0
+    if buf:
+        out.append(buf)
+    return out
 
 
 def parse_extern(src):
-    lines = src.split('\n')
+    lines = _join_open_brackets(src.split('\n'))
     out = []
     structs = {}
     i = 0
@@ -70,7 +138,7 @@ def parse_extern(src):
                         if i >= len(lines):
                             raise BuildError('parse_sentence declaration without `except +`')
                     cur = None
-                elif s == '' or re.match(r'float score\(\)', s):
+                elif s == '' or s.startswith('#') or re.match(r'float score\(\)', s):
                     pass
                 elif s.startswith('ctypedef') or s.startswith('cdef unsigned UINT_MAX'):
                     cur = None
@@ -90,8 +158,12 @@ def gen_shim(structs, have_hook):
     cpp = ['#include <climits>', '#include <cstdlib>', '#include <cstring>', '#include "depccg/parsing.h"',
            'using namespace parsing;', 'extern "C" {']
     for sname, fields in structs.items():
-        cpp.append(f'void* {sname}_new() {{ return new {sname}(); }}')
-        cpp.append(f'void {sname}_del(void*p) {{ delete ({sname}*)p; }}')
+        if sname == 'cell_item':        # never allocated by the pyx (items belong to the chart); it may lack a default ctor
+            cpp.append(f'void* {sname}_new() {{ return nullptr; }}')
+            cpp.append(f'void {sname}_del(void*p) {{ }}')
+        else:
+            cpp.append(f'void* {sname}_new() {{ return new {sname}(); }}')
+            cpp.append(f'void {sname}_del(void*p) {{ delete ({sname}*)p; }}')
         for t, n in fields:
             if t == 'string':
                 cpp.append(f'const char* {sname}_get_{n}(void*p, unsigned*len) {{ auto&s=(({sname}*)p)->{n}; *len=s.size(); return s.data(); }}')
@@ -99,7 +171,7 @@ def gen_shim(structs, have_hook):
             elif t.endswith('*'):
                 cpp.append(f'void* {sname}_get_{n}(void*p) {{ return (void*)(({sname}*)p)->{n}; }}')
             else:
-                ct = {'bint': 'int', 'unsigned': 'unsigned', 'unsigned int': 'unsigned', 'float': 'float', 'int': 'int',
+                ct = {'bint': 'int', 'bool': 'int', 'unsigned': 'unsigned', 'unsigned int': 'unsigned', 'float': 'float', 'int': 'int',
                       'double': 'double', 'size_t': 'unsigned long', 'long': 'long'}[t]
                 cpp.append(f'{ct} {sname}_get_{n}(void*p) {{ return ({ct})(({sname}*)p)->{n}; }}')
                 cpp.append(f'void {sname}_set_{n}(void*p, {ct} v) {{ (({sname}*)p)->{n} = v; }}')
@@ -108,6 +180,9 @@ float cell_item_score(void*p){ return ((cell_item*)p)->score(); }
 void* cache_new(){ return new cache_type(); }
 void cache_del(void*c){ delete (cache_type*)c; }
 unsigned cache_size(void*c){ return ((cache_type*)c)->size(); }
+void cache_clear(void*c){ ((cache_type*)c)->clear(); }
+/* number of results cached under the key, -1 if the key is missing */
+long cache_veclen(void*c, unsigned a, unsigned b){ auto&m=*(cache_type*)c; auto it=m.find(std::make_pair(a,b)); return it==m.end() ? -1 : (long)it->second.size(); }
 /* bounds-checked cache[0][key][idx]; 0 ok, 1 missing key, 2 index out of range */
 int cache_lookup(void*c, unsigned a, unsigned b, unsigned idx, void*out){
   cache_type*cc=(cache_type*)c; auto it=cc->find(std::make_pair(a,b));
@@ -140,6 +215,7 @@ class Runtime:
         self.registry = {}
         self.pending_exc = None
         self.unraisable = []        # exceptions swallowed by `noexcept` functions
+        self.harness_faults = []    # exceptions raised by the emulation itself (a proxy lacks an operation)
         self.faults = []            # undefined behaviour surfaced by the shim
         self._hook_ref = None
         L = lib
@@ -156,7 +232,7 @@ class Runtime:
                     g.restype = ctypes.c_void_p
                     g.argtypes = [ctypes.c_void_p]
                 else:
-                    ct = {'bint': ctypes.c_int, 'unsigned': ctypes.c_uint, 'unsigned int': ctypes.c_uint,
+                    ct = {'bint': ctypes.c_int, 'bool': ctypes.c_int, 'unsigned': ctypes.c_uint, 'unsigned int': ctypes.c_uint,
                           'float': ctypes.c_float, 'int': ctypes.c_int, 'double': ctypes.c_double,
                           'size_t': ctypes.c_ulong, 'long': ctypes.c_long}[t]
                     g.restype = ct
@@ -170,6 +246,10 @@ class Runtime:
             getattr(L, n).argtypes = [ctypes.c_void_p]
         L.cache_size.argtypes = [ctypes.c_void_p]
         L.cache_size.restype = ctypes.c_uint
+        L.cache_clear.argtypes = [ctypes.c_void_p]
+        L.cache_clear.restype = None
+        L.cache_veclen.argtypes = [ctypes.c_void_p, ctypes.c_uint, ctypes.c_uint]
+        L.cache_veclen.restype = ctypes.c_long
         L.cache_lookup.argtypes = [ctypes.c_void_p, ctypes.c_uint, ctypes.c_uint, ctypes.c_uint, ctypes.c_void_p]
         L.vec_push_back.argtypes = [ctypes.c_void_p, ctypes.c_void_p]
         L.uset_insert.argtypes = [ctypes.c_void_p, ctypes.c_uint]
@@ -205,6 +285,9 @@ class Runtime:
 
             def __eq__(s, o):
                 return (o is rt.NULL and not s._p) or (isinstance(o, Ptr) and o._p == s._p)
+
+            def __bool__(s):            # `if p:` / `if not p:` test a pointer against NULL
+                return bool(s._p)
 
             def __ne__(s, o):
                 return not s.__eq__(o)
@@ -245,7 +328,7 @@ class Runtime:
                 if t.endswith('*'):
                     return Struct(t[:-1].strip(), getattr(L, f'{s._n}_get_{k}')(s._p), False)
                 v = getattr(L, f'{s._n}_get_{k}')(s._p)
-                return bool(v) if t == 'bint' else v
+                return bool(v) if t in ('bint', 'bool') else v
 
             def __setattr__(s, k, v):
                 if k not in s._f:
@@ -262,7 +345,7 @@ class Runtime:
                     if v > 0xFFFFFFFF:
                         raise OverflowError('value too large to convert to unsigned int')
                     getattr(L, f'{s._n}_set_{k}')(s._p, v)
-                elif t == 'bint':
+                elif t in ('bint', 'bool'):
                     getattr(L, f'{s._n}_set_{k}')(s._p, 1 if v else 0)
                 elif t in ('float', 'double'):
                     getattr(L, f'{s._n}_set_{k}')(s._p, float(v))
@@ -294,6 +377,18 @@ class Runtime:
                     raise IndexError('only cache[0] is supported')
                 return CacheRef(s._p)
 
+            def at(s, key):
+                return VecRef(s._p, key)
+
+            def count(s, key):
+                return CacheRef(s._p).count(key)
+
+            def size(s):
+                return int(L.cache_size(s._p))
+
+            def clear(s):
+                L.cache_clear(s._p)
+
         class CacheRef:
             def __init__(s, p):
                 s.p = p
@@ -304,10 +399,31 @@ class Runtime:
             def at(s, key):         # unordered_map::at (same bounds-checked element access)
                 return VecRef(s.p, key)
 
+            def count(s, key):
+                return 1 if L.cache_veclen(s.p, key.first, key.second) >= 0 else 0
+
+            def size(s):
+                return int(L.cache_size(s.p))
+
+            def clear(s):
+                L.cache_clear(s.p)
+
         class VecRef:
             def __init__(s, p, key):
                 s.p = p
                 s.key = key
+
+            def size(s):
+                n = L.cache_veclen(s.p, s.key.first, s.key.second)
+                if n < 0:
+                    msg = 'undefined behaviour in the real extension: cache[%d,%d].size() on a missing key' % (
+                        s.key.first, s.key.second)
+                    rt.faults.append(msg)
+                    raise RuntimeError(msg)
+                return int(n)
+
+            def __len__(s):
+                return s.size()
 
             def __getitem__(s, idx):
                 out = Struct('combinator_result')
@@ -403,12 +519,27 @@ class Runtime:
         fsig = self.sigs[fin.__name__]
         ssig = self.sigs[sc.__name__]
 
+        def emulation_fault(e):
+            """an AttributeError / TypeError / NotImplementedError whose innermost frame is this file: a proxy of the
+            emulation was asked for something it does not emulate (not the translated code's own doing)"""
+            import traceback
+            tb = traceback.extract_tb(e.__traceback__)
+            if isinstance(e, (AttributeError, TypeError, NotImplementedError, IndexError)) and tb and \
+                    (tb[-1].filename.endswith('pyxlite.py') or
+                     (isinstance(e, AttributeError) and any(n in str(e) for n in
+                                                           ("'Cache'", "'CacheRef'", "'VecRef'", "'VecPtr'", "'USet'",
+                                                            "'Ptr'", "'Struct'", "'Pair'", "'VoidP'")))):
+                self.harness_faults.append(f'{type(e).__name__}: {e}')
+                return True
+            return False
+
         def sc_tr(a, b, c, d):
             try:
                 args = [self.wrap(t, v) for (t, _), v in zip(ssig['args'], (a, b, c, d))]
                 r = sc(*args)
                 return int(r or 0)
             except BaseException as e:
+                emulation_fault(e)
                 if ssig['exc'].startswith('except'):
                     self.pending_exc = e
                     return -1
@@ -421,6 +552,7 @@ class Runtime:
                 r = fin(*args)
                 return int(r or 0) & 0xFFFFFFFF
             except BaseException as e:
+                emulation_fault(e)
                 if fsig['exc'] == 'noexcept' or not fsig['exc']:
                     self.unraisable.append(e)     # Cython prints and swallows
                     return 0
@@ -496,6 +628,7 @@ def _expand_cdef_blocks(lines):
 
 
 def translate(src):
+    src = strip_comments(src)
     structs, body = parse_extern(src)
     sigs = {}
     lines = _expand_cdef_blocks(body.split('\n'))
@@ -520,6 +653,7 @@ def translate(src):
         s = re.sub(r'<\s*(int|long)\s*>\s*([\w\.]+(?:\([^()]*\))?)', r'int(\2)', s)
         s = re.sub(r'<\s*(float|double)\s*>\s*([\w\.]+(?:\([^()]*\))?)', r'float(\2)', s)
         s = re.sub(r'<\s*bint\s*>\s*([\w\.]+(?:\([^()]*\))?)', r'bool(\1)', s)
+        s = re.sub(r'<\s*(dict|list|tuple|str|bytes|set)\s*>\s*(?=[\w\(])', '', s)
         if re.search(r'<\s*\w+[\s\*]*>\s*\w', s) and '->' not in s and not s.lstrip().startswith('#'):
             raise BuildError('unknown cast: ' + s)
         return s
@@ -555,6 +689,8 @@ def translate(src):
             continue
         if m:
             ind, rest = m.groups()
+            if '#' in rest and "'" not in rest and '"' not in rest:
+                rest = rest[:rest.index('#')].rstrip()          # (a trailing comment on a declaration)
             d = 0
             init = None
             decl = rest
@@ -616,6 +752,7 @@ def translate(src):
                 checks.append((mm.group(2), mm.group(3)))
                 return mm.group(1) + mm.group(3)
             hdr2 = re.sub(r'([\(,]\s*)(list|dict|object|str|int|float|bint)\s+(\w+)', fix, hdr)
+            hdr2 = re.sub(r'(\w)\s+(?:not\s+None|or\s+None)(?=\s*[,)=])', r'\1', hdr2)
             out.extend(hdr2.split('\n'))
             ind = re.match(r'^(\s*)', ln).group(1) + '    '
             for t, n in checks:
@@ -682,6 +819,14 @@ def build(repo, sanitize=False):
     lib = ctypes.CDLL(so)
     rt = Runtime(lib, structs, sigs, have_hook)
     mod = types.ModuleType('depccg._parsing')
+    class _NP:
+        def __getattr__(self, name):
+            import numpy
+            if name == 'import_array':
+                return lambda *a, **k: None
+            return getattr(numpy, name)
+    mod.__dict__.setdefault('np', _NP())
+    mod.__dict__.update({'nullptr': rt.NULL})
     mod.__dict__.update({'INFINITY': float('inf'), 'HUGE_VAL': float('inf'), 'NAN': float('nan'),
                          'INT_MAX': 0x7FFFFFFF, 'exp': math.exp, 'log': math.log, 'sqrt': math.sqrt, 'fabs': abs})
     mod.__dict__.update({'__rt': rt, 'NULL': rt.NULL, 'UINT_MAX': 0xFFFFFFFF, 'parse_sentence': rt.parse_sentence,
